@@ -42,6 +42,8 @@ CONSTANTS
   Adv = {}
   AdvMoves = {}
   MaxAdv = 0
+  SegChoice = {}
+  SegFloor = 0
   Dev = {"zero_length_stuck", "start_after_term", "close_drops_socket_buffer", "close_before_peer_term"}
   Enforced = {}
   Known = {}
